@@ -398,7 +398,8 @@ theorem gen_tie :
     minRelay = 10000 ∧ Gen.TxBuild.reservationTTLSeconds = 300 ∧
     Gen.TxBuild.selectorShapeAsModelled = true ∧ Gen.TxBuild.feeFormulaAsModelled = true ∧
     Gen.TxBuild.createPathsReserving = 4 ∧ Gen.TxBuild.estimateReserves = false ∧
-    Gen.TxBuild.apiFeeLimitReleasing = Gen.TxBuild.apiFeeLimitHandlers ∧ Gen.TxBuild.releaseChecksHolder = true := by
+    Gen.TxBuild.apiFeeLimitReleasing = Gen.TxBuild.apiFeeLimitHandlers ∧ Gen.TxBuild.releaseChecksHolder = true ∧
+    Gen.TxBuild.manualRejectsDuplicates = true := by
   decide
 
 /-- the model's dust rule has the threshold mass-core's IsDust has (found by binary search on the real
